@@ -225,10 +225,262 @@ def _find_func(tree, path):
     return node
 
 
+# ---- name-independent reading ------------------------------------------------------------------
+class _Inliner(ast.NodeTransformer):
+    """Straight-line symbolic execution of simple statement blocks: every local name is replaced by
+    the expression that defines it, so the result does not depend on the names of the locals nor on
+    the order of independent statements.  Comprehension variables are renamed canonically.
+    Accepted statements: docstrings, `x = e`, `x op= e`, `x[i] op= e`, `if t: <assignments>`,
+    the loop `for r in S: while r[-1] == r[0]: r.pop()` (-> __trim_closing__(S)), `return e`."""
+
+    def __init__(self, where):
+        self.env = {}
+        self.where = where
+        self.loc = []
+        self.nloc = 0
+
+    # expressions
+    def visit_Name(self, n):
+        for m in reversed(self.loc):
+            if n.id in m:
+                return ast.Name(id=m[n.id], ctx=ast.Load())
+        if isinstance(n.ctx, ast.Load) and n.id in self.env:
+            return ast.parse(ast.unparse(self.env[n.id]), mode="eval").body
+        return ast.Name(id=n.id, ctx=ast.Load())
+
+    def _comp(self, n, elts):
+        m = {}
+        self.loc.append(m)
+        gens = []
+        for g in n.generators:
+            it = self.visit(g.iter)
+            for t in ast.walk(g.target):
+                if isinstance(t, ast.Name):
+                    m[t.id] = "_c%d" % self.nloc
+                    self.nloc += 1
+            gens.append(ast.comprehension(target=self.visit(g.target), iter=it, ifs=[self.visit(i) for i in g.ifs], is_async=0))
+        res = [self.visit(e) for e in elts]
+        self.loc.pop()
+        return res, gens
+
+    def visit_ListComp(self, n):
+        (e,), g = self._comp(n, [n.elt])
+        return ast.ListComp(elt=e, generators=g)
+
+    def visit_GeneratorExp(self, n):
+        (e,), g = self._comp(n, [n.elt])
+        return ast.GeneratorExp(elt=e, generators=g)
+
+    def visit_Lambda(self, n):
+        raise TranslateError("%s: lambda inside the block" % self.where)
+
+    def ex(self, node):
+        self.nloc = 0
+        return ast.fix_missing_locations(self.visit(ast.parse(ast.unparse(node), mode="eval").body))
+
+    # statements
+    def run(self, stmts):
+        for st in stmts:
+            if isinstance(st, ast.Expr) and isinstance(st.value, ast.Constant) and isinstance(st.value.value, str):
+                continue
+            if isinstance(st, ast.Assign) and len(st.targets) == 1 and isinstance(st.targets[0], ast.Name):
+                self.env[st.targets[0].id] = self.ex(st.value)
+            elif isinstance(st, ast.AnnAssign) and isinstance(st.target, ast.Name) and st.value is not None:
+                self.env[st.target.id] = self.ex(st.value)
+            elif isinstance(st, ast.AugAssign) and isinstance(st.target, ast.Name):
+                old = self.ex(ast.Name(id=st.target.id, ctx=ast.Load()))
+                self.env[st.target.id] = ast.BinOp(left=old, op=st.op, right=self.ex(st.value))
+            elif isinstance(st, ast.AugAssign) and isinstance(st.target, ast.Subscript) and isinstance(st.target.value, ast.Name):
+                nm = st.target.value.id
+                old = self.ex(ast.Name(id=nm, ctx=ast.Load()))
+                self.env[nm] = ast.Call(func=ast.Name(id="__aug_%s__" % type(st.op).__name__, ctx=ast.Load()),
+                                        args=[old, self.ex(st.target.slice), self.ex(st.value)], keywords=[])
+            elif isinstance(st, ast.If) and not st.orelse and all(
+                    isinstance(b, ast.Assign) and len(b.targets) == 1 and isinstance(b.targets[0], ast.Name) for b in st.body):
+                t = self.ex(st.test)
+                for b in st.body:
+                    nm = b.targets[0].id
+                    old = self.ex(ast.Name(id=nm, ctx=ast.Load()))
+                    self.env[nm] = ast.IfExp(test=t, body=self.ex(b.value), orelse=old)
+            elif isinstance(st, ast.For) and self._is_trim_loop(st):
+                nm = st.iter.id
+                old = self.ex(ast.Name(id=nm, ctx=ast.Load()))
+                self.env[nm] = ast.Call(func=ast.Name(id="__trim_closing__", ctx=ast.Load()), args=[old], keywords=[])
+            elif isinstance(st, ast.Return) and st.value is not None:
+                return self.ex(st.value)
+            else:
+                raise TranslateError("%s: statement `%s`" % (self.where, ast.unparse(st).splitlines()[0][:70]))
+        return None
+
+    @staticmethod
+    def _is_trim_loop(st):
+        if not (isinstance(st.target, ast.Name) and isinstance(st.iter, ast.Name) and not st.orelse and len(st.body) == 1):
+            return False
+        w = st.body[0]
+        v = st.target.id
+        return (isinstance(w, ast.While) and not w.orelse and ast.unparse(w.test) == "%s[-1] == %s[0]" % (v, v)
+                and len(w.body) == 1 and ast.unparse(w.body[0]) == "%s.pop()" % v)
+
+
+def _dim3_formula(fn, where):
+    """canonical (fully inlined) expression returned by the `dim == 3` branch of Get_pointsInElem."""
+    inl = _Inliner(where)
+    chain = None
+    for st in fn.body:
+        if isinstance(st, ast.If):
+            if len(st.body) == 1 and isinstance(st.body[0], ast.Return) and not st.orelse:
+                continue            # early-exit guard (empty input)
+            chain = st
+            break
+        inl.run([st])
+    node = chain
+    while node is not None:
+        t = ast.unparse(inl.ex(node.test))
+        if t in ("self.__dim == 3", "self.dim == 3"):
+            r = inl.run(node.body)
+            if r is None:
+                raise TranslateError("%s: the 3-D branch does not return" % where)
+            return ast.unparse(r)
+        node = node.orelse[0] if len(node.orelse) == 1 and isinstance(node.orelse[0], ast.If) else None
+    raise TranslateError("%s: no `dim == 3` branch" % where)
+
+
+_PIE_REF = """
+def Get_pointsInElem(self, coordinates_n, elem):
+    dim = self.__dim
+    connect = self._global_to_local_nodes[self.connect]
+    tol = 1e-12
+    if dim == 3:
+%(rows)s
+        p0_f = [surface[0] for surface in surfaces]
+        p1_f = [surface[1] for surface in surfaces]
+        p2_f = [surface[-1] for surface in surfaces]
+        i_f = Normalize(coord[p1_f] - coord[p0_f])
+        j_f = Normalize(coord[p2_f] - coord[p0_f])
+        n_f = Normalize(np.cross(i_f, j_f, 1, 1))
+%(flip)s
+        coordinates_n_i = coordinates_n[:, np.newaxis].repeat(Nface, 1)
+        v_f = coordinates_n_i - coord[p0_f]
+        t_f = np.einsum("nfi,fi->nf", v_f, n_f, optimize="optimal") <= tol
+        filtre = np.sum(t_f, 1)
+        idx = np.where(filtre == Nface)[0]
+        return idx
+"""
+_PIE_ROWS = {
+    "last1": """
+        surfaces = self.surfaces
+        coord = self.coord[connect[elem]]
+        if self.elemType.startswith("PRISM"):
+            surfaces = np.array([surfaces[0, :], surfaces[1, :], surfaces[2, :], surfaces[3, :-1], surfaces[4, :-1]], dtype=object)
+        Nface = surfaces.shape[0]
+""",
+    "closing": """
+        coord = self.coord[connect[elem]]
+        surfaces = [list(surface) for surface in self.surfaces]
+        for surface in surfaces:
+            while surface[-1] == surface[0]:
+                surface.pop()
+        Nface = len(surfaces)
+"""}
+_PIE_FLIP = {
+    "tables": "",
+    "centroid": """
+        inward_f = np.einsum("fi,fi->f", coord.mean(0) - coord[p0_f], n_f) > 0
+        n_f[inward_f] *= -1
+"""}
+
+
+def read_pointin_form(repo):
+    """Reads the dim == 3 branch of _GroupElem.Get_pointsInElem.  The branch is executed
+    symbolically (every local inlined): the returned index expression must coincide with the one of
+    a reference form — independent of the names of the locals and of the order of independent
+    statements.  Returns (trim, orient, lineno):
+      trim   'last1'   : PRISM rows 3, 4 lose their last entry (`surfaces[3, :-1]`), code as first found
+             'closing' : trailing repetitions of the first node are removed from every row
+      orient 'tables'  : the half-space normal is cross(p1 - p0, p2 - p0) as the tables give it
+             'centroid': that normal is flipped when the element centroid lies on its positive side"""
+    path = os.path.join(repo, "EasyFEA/FEM/_group_elem.py")
+    tree = ast.parse(open(path).read())
+    fn = _find_func(tree, ["_GroupElem", "Get_pointsInElem"])
+    if fn is None:
+        raise TranslateError("_GroupElem.Get_pointsInElem not found")
+    got = _dim3_formula(fn, "Get_pointsInElem (dim 3)")
+    for trim in ("last1", "closing"):
+        for orient in ("tables", "centroid"):
+            ref = ast.parse(_PIE_REF % {"rows": _PIE_ROWS[trim], "flip": _PIE_FLIP[orient]}).body[0]
+            if _dim3_formula(ref, "reference") == got:
+                return trim, orient, fn.lineno
+    raise TranslateError("Get_pointsInElem (dim 3): the half-space test is none of the known forms: %s" % got[:300])
+
+
+def _outer_bindings(gm, skip):
+    outer = {}
+    skip_nodes = set(id(n) for n in ast.walk(skip)) if skip is not None else set()
+    for n in ast.walk(gm):
+        if id(n) in skip_nodes:
+            continue
+        if isinstance(n, ast.Assign) and len(n.targets) == 1 and isinstance(n.targets[0], ast.Name):
+            outer.setdefault(n.targets[0].id, []).append(ast.unparse(n.value))
+    return outer
+
+
+class _MappingNames:
+    """classification of the locals of _Get_Mapping by WHAT they are bound to (not by their names)."""
+
+    def __init__(self, outer):
+        self.o = outer
+
+    def vals(self, name):
+        return set(self.o.get(name, []))
+
+    def kind(self, name, depth=0):
+        import re
+        v = self.vals(name)
+        if not v or depth > 4:
+            return None
+        if v == {"self._dN()"}:
+            return "dN_tild"
+        if v == {"self._N()"}:
+            return "N_tild"
+        if v == {"self.origin"}:
+            return "xi0"
+        if v == {"self.dim"}:
+            return "dim"
+        if v == {"self.coord"}:
+            return "coord"
+        if v == {"self._Get_sysCoord_e()"}:
+            return "sys"
+        if v == {"self.Get_invF_e_pg(matrixType)"} and self.vals("matrixType") == {"MatrixType.mass"}:
+            return "invF"
+        if len(v) == 1:
+            t = next(iter(v))
+            m = re.match(r"^(\w+)\[(\w+)\[e\]\]$", t)
+            if m and self.kind(m.group(1), depth + 1) == "coord" and self.vals(m.group(2)) == {"self._global_to_local_nodes[self.connect]"}:
+                return "coordElem"
+            m = re.match(r"^(\w+)\[0, :(\w+)\]$", t)
+            if m and self.kind(m.group(1), depth + 1) == "coordElemBase" and self.kind(m.group(2), depth + 1) == "dim":
+                return "x0"
+            m = re.match(r"^(\w+)\[:, :(\w+)\]$", t)
+            if m and self.kind(m.group(1), depth + 1) == "coordinatesBase" and self.kind(m.group(2), depth + 1) == "dim":
+                return "xP_n"
+        if len(v) == 2:
+            cp = [t for t in v if t.endswith(".copy()")]
+            pr = [t for t in v if t.startswith(name + " @ ") and t.endswith("[e]")]
+            if len(cp) == 1 and len(pr) == 1 and self.kind(pr[0][len(name) + 3:-3], depth + 1) == "sys":
+                base = cp[0][:-len(".copy()")]
+                if re.match(r"^\w+$", base) and self.kind(base, depth + 1) == "coordElem":
+                    return "coordElemBase"
+                m = re.match(r"^coordinates_n\[(\w+)\]$", base)
+                if m:
+                    return "coordinatesBase"
+        return None
+
+
 def read_eval_form(repo):
-    """Symbolically reads `Eval(xi, xP)` nested in _GroupElem._Get_Mapping.
+    """Symbolically reads the cost function nested in _GroupElem._Get_Mapping (`Eval(xi, xP)`, any
+    argument / local names; outer names are identified by what they are bound to).
     Returns ('tangent' | 'iso', lineno).
-       tangent :  J = x0 + (xi - xiOrigin) @ (dN(xi) @ X) - xP      (code as found)
+       tangent :  J = x0 + (xi - xiOrigin) @ (dN(xi) @ X) - xP      (code as first found)
        iso     :  J = N(xi) @ X - xP                                (isoparametric map)
     Anything else -> TranslateError (unknown cost function: the theorems do not apply)."""
     path = os.path.join(repo, "EasyFEA/FEM/_group_elem.py")
@@ -236,60 +488,56 @@ def read_eval_form(repo):
     gm = _find_func(tree, ["_GroupElem", "_Get_Mapping"])
     if gm is None:
         raise TranslateError("_GroupElem._Get_Mapping not found")
-    evals = [n for n in ast.walk(gm) if isinstance(n, ast.FunctionDef) and n.name == "Eval"]
+    evals = [n for n in ast.walk(gm) if isinstance(n, ast.FunctionDef) and n is not gm]
     if len(evals) != 1:
-        raise TranslateError("_Get_Mapping: expected exactly one nested Eval, found %d" % len(evals))
+        raise TranslateError("_Get_Mapping: expected exactly one nested function (the cost function), found %d" % len(evals))
     ev = evals[0]
-    if [a.arg for a in ev.args.args] != ["xi", "xP"]:
-        raise TranslateError("Eval signature %s" % [a.arg for a in ev.args.args])
-    # outer bindings of the tables and of the geometric data
-    outer = {}
-    for n in ast.walk(gm):
-        if isinstance(n, ast.Assign) and len(n.targets) == 1 and isinstance(n.targets[0], ast.Name):
-            outer.setdefault(n.targets[0].id, []).append(ast.unparse(n.value))
-
-    def outer_is(name, *texts):
-        return name in outer and all(t in texts for t in outer[name])
-    env = {"xi": "xi", "xP": "xP"}
+    # it must be the function handed to least_squares, called with the query point as extra argument
+    uses = [n for n in ast.walk(gm) if isinstance(n, ast.Call) and ast.unparse(n.func).endswith("least_squares")]
+    if len(uses) != 1 or not (uses[0].args and isinstance(uses[0].args[0], ast.Name) and uses[0].args[0].id == ev.name):
+        raise TranslateError("_Get_Mapping: the nested function %s is not the one minimised by least_squares" % ev.name)
+    if len(ev.args.args) != 2:
+        raise TranslateError("cost function signature %s" % [a.arg for a in ev.args.args])
+    a_xi, a_xp = [a.arg for a in ev.args.args]
+    names = _MappingNames(_outer_bindings(gm, ev))
+    env = {a_xi: "xi", a_xp: "xP"}
 
     def sym(n):
         if isinstance(n, ast.Name):
             if n.id in env:
                 return env[n.id]
-            if n.id == "x0" and outer_is("x0", "coordElemBase[0, :dim]"):
-                return "x0"
-            if n.id == "xiOrigin" and outer_is("xiOrigin", "self.origin"):
-                return "xi0"
-            raise TranslateError("Eval: unbound or rebound name %s" % n.id)
+            k = names.kind(n.id)
+            if k in ("x0", "xi0"):
+                return k
+            raise TranslateError("Eval: name %s is bound to %s" % (n.id, sorted(names.vals(n.id)) or "nothing known"))
         if isinstance(n, ast.BinOp):
             op = {ast.Add: "+", ast.Sub: "-", ast.MatMult: "@"}.get(type(n.op))
             if op is None:
                 raise TranslateError("Eval: operator %s" % type(n.op).__name__)
             return (op, sym(n.left), sym(n.right))
         if isinstance(n, ast.Call):
-            t = ast.unparse(n)
-            for tab, meth in (("dN_tild", "self._dN()"), ("N_tild", "self._N()")):
-                if t in ("_GroupElem._Eval_Functions(%s, xi.reshape(1, -1))" % tab,
-                         "self._Eval_Functions(%s, xi.reshape(1, -1))" % tab):
-                    if not outer_is(tab, meth):
-                        raise TranslateError("Eval: %s is not %s" % (tab, meth))
-                    return ("tab", tab)
-            raise TranslateError("Eval: call %s" % t[:70])
+            f = ast.unparse(n.func)
+            if (f in ("_GroupElem._Eval_Functions", "self._Eval_Functions") and len(n.args) == 2 and not n.keywords
+                    and isinstance(n.args[0], ast.Name) and names.kind(n.args[0].id) in ("dN_tild", "N_tild")
+                    and ast.unparse(n.args[1]) == "%s.reshape(1, -1)" % a_xi):
+                return ("tab", names.kind(n.args[0].id))
+            raise TranslateError("Eval: call %s" % ast.unparse(n)[:70])
         if isinstance(n, ast.Subscript):
-            t = ast.unparse(n)
-            if t == "coordElemBase[:, :dim]":
-                if not outer_is("coordElemBase", "coordElem.copy()", "coordElemBase @ sysCoord_e[e]"):
-                    raise TranslateError("Eval: coordElemBase is rebound")
-                return "X"
-            base = sym(n.value)
             idx = ast.unparse(n.slice)
+            if isinstance(n.value, ast.Name) and n.value.id not in env and names.kind(n.value.id) == "coordElemBase":
+                sl = n.slice
+                if (isinstance(sl, ast.Tuple) and len(sl.elts) == 2 and ast.unparse(sl.elts[0]) == ":" and isinstance(sl.elts[1], ast.Slice)
+                        and sl.elts[1].lower is None and isinstance(sl.elts[1].upper, ast.Name) and names.kind(sl.elts[1].upper.id) == "dim"):
+                    return "X"
+                raise TranslateError("Eval: subscript %s" % ast.unparse(n)[:70])
+            base = sym(n.value)
             if isinstance(base, tuple) and base[0] == "tab" and idx == "0":
                 return ("row0", base[1])                  # (nF, nPe) block of the single point
             if isinstance(base, tuple) and base[0] == "tab" and idx in ("(0, 0)", "0, 0"):
                 return ("row00", base[1])
             if isinstance(base, tuple) and base[0] == "row0" and idx == "0":
                 return ("row00", base[1])
-            raise TranslateError("Eval: subscript %s" % t[:70])
+            raise TranslateError("Eval: subscript %s" % ast.unparse(n)[:70])
         raise TranslateError("Eval: expression %s" % ast.unparse(n)[:70])
     result = None
     for st in ev.body:
@@ -314,67 +562,40 @@ def read_eval_form(repo):
 
 
 def read_affine_branch(repo):
-    """Checks that the non-iterative branch is  xiP = xiOrigin + (xP_n - x0) @ invF_e_pg[e, 0]
-    (possibly with np.asarray around the FeArray).  Returns lineno."""
+    """Checks that the non-iterative branch of _Get_Mapping assigns
+        xiOrigin + (xP_n - x0) @ invF_e_pg[e, 0]
+    (possibly with np.asarray around the FeArray), whatever the locals are called.  Returns lineno."""
     path = os.path.join(repo, "EasyFEA/FEM/_group_elem.py")
     tree = ast.parse(open(path).read())
     gm = _find_func(tree, ["_GroupElem", "_Get_Mapping"])
     if gm is None:
         raise TranslateError("_GroupElem._Get_Mapping not found")
-    ok = ("xiOrigin + (xP_n - x0) @ invF_e_pg[e, 0]", "xiOrigin + (xP_n - x0) @ np.asarray(invF_e_pg)[e, 0]",
-          "xiOrigin + (xP_n - x0) @ np.asarray(invF_e_pg[e, 0])")
+    nested = [n for n in ast.walk(gm) if isinstance(n, ast.FunctionDef) and n is not gm]
+    names = _MappingNames(_outer_bindings(gm, nested[0] if nested else None))
+
+    def inv_ok(n):
+        t = ast.unparse(n)
+        for nm in set(x.id for x in ast.walk(n) if isinstance(x, ast.Name)):
+            if names.kind(nm) == "invF":
+                return t in ("%s[e, 0]" % nm, "np.asarray(%s)[e, 0]" % nm, "np.asarray(%s[e, 0])" % nm)
+        return False
+    cands = []
     for n in ast.walk(gm):
-        if isinstance(n, ast.If) and ast.unparse(n.test) == "not useIterative_e[e]":
+        if isinstance(n, ast.If) and isinstance(n.test, ast.UnaryOp) and isinstance(n.test.op, ast.Not) and n.orelse:
             for st in n.body:
-                if isinstance(st, ast.Assign) and ast.unparse(st.targets[0]) == "xiP":
-                    if ast.unparse(st.value) in ok:
-                        return st.lineno
-                    raise TranslateError("_Get_Mapping affine branch: xiP = %s" % ast.unparse(st.value)[:80])
-    raise TranslateError("_Get_Mapping: affine branch not found")
-
-
-def read_pointin_form(repo):
-    """Reads the dim == 3 branch of _GroupElem.Get_pointsInElem (statement-level, fail-closed).
-    Returns (trim, orient, lineno):
-      trim   'last1'   : PRISM rows 3, 4 lose their last entry (`surfaces[3, :-1]`), code as found
-             'closing' : trailing repetitions of the first node are removed from every row
-      orient 'tables'  : the half-space normal is cross(p1 - p0, p2 - p0) as the tables give it
-             'centroid': that normal is flipped when the element centroid lies on its positive side"""
-    path = os.path.join(repo, "EasyFEA/FEM/_group_elem.py")
-    tree = ast.parse(open(path).read())
-    fn = _find_func(tree, ["_GroupElem", "Get_pointsInElem"])
-    if fn is None:
-        raise TranslateError("_GroupElem.Get_pointsInElem not found")
-    br = None
-    for n in ast.walk(fn):
-        if isinstance(n, ast.If) and ast.unparse(n.test) == "dim == 3":
-            br = n
-    if br is None:
-        raise TranslateError("Get_pointsInElem: no `dim == 3` branch")
-    stmts = [ast.unparse(st) for st in br.body]
-    src = "\n".join(stmts)
-    need = ["p0_f = [surface[0] for surface in surfaces]", "p1_f = [surface[1] for surface in surfaces]",
-            "p2_f = [surface[-1] for surface in surfaces]", "i_f = Normalize(coord[p1_f] - coord[p0_f])",
-            "j_f = Normalize(coord[p2_f] - coord[p0_f])", "n_f = Normalize(np.cross(i_f, j_f, 1, 1))",
-            "v_f = coordinates_n_i - coord[p0_f]", "t_f = np.einsum('nfi,fi->nf', v_f, n_f, optimize='optimal') <= tol",
-            "filtre = np.sum(t_f, 1)", "idx = np.where(filtre == Nface)[0]", "coord = self.coord[connect[elem]]"]
-    for t in need:
-        if t not in stmts:
-            raise TranslateError("Get_pointsInElem (dim 3): statement `%s` not found" % t)
-    if "surfaces[3, :-1]" in src and "surfaces[4, :-1]" in src and "startswith('PRISM')" in src and "while" not in src:
-        trim = "last1"
-    elif "while surface[-1] == surface[0]:\n        surface.pop()" in src and "surfaces = [list(surface) for surface in self.surfaces]" in src:
-        trim = "closing"
-    else:
-        raise TranslateError("Get_pointsInElem (dim 3): unknown treatment of the padded prism rows")
-    flip = [t for t in stmts if "n_f[" in t or "n_f *=" in t or "n_f = -" in t]
-    if not flip:
-        orient = "tables"
-    elif flip == ["n_f[inward_f] *= -1"] and "inward_f = np.einsum('fi,fi->f', coord.mean(0) - coord[p0_f], n_f) > 0" in stmts:
-        orient = "centroid"
-    else:
-        raise TranslateError("Get_pointsInElem (dim 3): unknown normal re-orientation %s" % flip)
-    return trim, orient, br.lineno
+                if isinstance(st, ast.Assign) and isinstance(st.value, ast.BinOp):
+                    cands.append(st)
+    for st in cands:
+        v = st.value
+        if (isinstance(v.op, ast.Add) and isinstance(v.left, ast.Name) and names.kind(v.left.id) == "xi0"
+                and isinstance(v.right, ast.BinOp) and isinstance(v.right.op, ast.MatMult)
+                and isinstance(v.right.left, ast.BinOp) and isinstance(v.right.left.op, ast.Sub)
+                and isinstance(v.right.left.left, ast.Name) and names.kind(v.right.left.left.id) == "xP_n"
+                and isinstance(v.right.left.right, ast.Name) and names.kind(v.right.left.right.id) == "x0"
+                and inv_ok(v.right.right)):
+            return st.lineno
+    raise TranslateError("_Get_Mapping: the affine branch `xiOrigin + (xP_n - x0) @ invF_e_pg[e, 0]` was not found%s"
+                         % ("" if not cands else " (found: %s)" % ast.unparse(cands[0])[:80]))
 
 
 # --------------------------------------------------------------------------------------
